@@ -16,6 +16,10 @@ pub fn run_line(line: &str) -> String {
         "eval" => run_eval(&mut t),
         "env" => run_env(&mut t),
         "num" => crate::numrun::run_num(&mut t),
+        "call" => crate::call::run_call(&mut t),
+        "rep" => crate::call::run_rep(&mut t),
+        "ord" => crate::laws::run_ord(&mut t),
+        "sortlaw" => crate::laws::run_sortlaw(&mut t),
         "scan" => crate::lang::run_scan(&mut t),
         "parse" => crate::lang::run_parse(&mut t),
         "compile" => crate::lang::run_compile(&mut t),
